@@ -74,6 +74,11 @@ func (l *Labels) FromBytes(data []byte) error {
 	if err != nil {
 		return err
 	}
+	// Keep a private copy: the caller may reuse its buffer after decoding,
+	// and ToBytes returns these bytes while the labels are unmodified.
+	if data != nil {
+		data = append(make([]byte, 0, len(data)), data...)
+	}
 	l.original = data
 	l.Labels = labs
 	return nil
